@@ -1032,7 +1032,11 @@ func (r *Raft) sendAppendEntriesToPeers() {
 		r.tryApplyReadOnlyOperations(round, sent)
 	}
 
-	numResponses := 1
+	// This node only counts toward the quorum if it is a voting member itself.
+	numResponses := 0
+	if r.isVoter(r.id) {
+		numResponses = 1
+	}
 	for id, address := range r.configuration.Members {
 		if id != r.id {
 			go r.sendAppendEntries(id, address, &numResponses, round, sent)
@@ -1823,8 +1827,12 @@ func (r *Raft) commitLoop() {
 			}
 
 			// Check whether the majority of nodes in the cluster agree on the entry.
-			// If they do, it is safe to commit.
-			matches := 1
+			// If they do, it is safe to commit. This node only counts if it is a voting
+			// member itself: a leader may have been demoted to a non-voter.
+			matches := 0
+			if r.isVoter(r.id) {
+				matches = 1
+			}
 			for id, follower := range r.followers {
 				// Ignore this node and any nodes which are not voting members.
 				if id == r.id || !r.configuration.IsVoter[id] {
